@@ -79,6 +79,9 @@ func main() {
 	case "c15src":
 		set, in = streams.Src(*seed, *n, "pf_src15")
 		set.Stream = "c15src"
+	case "c12src":
+		set, in = streams.Src(*seed, *n, "pf_src12")
+		set.Stream = "c12src"
 	case "c07src":
 		set, in = streams.Src(*seed, *n, "pf_src07")
 		set.Stream = "c07src"
